@@ -34,6 +34,7 @@ import (
 	"time"
 
 	"src.elv.sh/pkg/eval"
+	"src.elv.sh/pkg/eval/vars"
 	"src.elv.sh/pkg/parse"
 	. "verifharness/coqfmt"
 	"verifharness/reg"
@@ -58,8 +59,11 @@ type recorder struct {
 	running  int
 	maxrun   int
 	cancelAt int
+	loopK    [64]int // while loops of the mini-language: iterations per execution
+	loopN    [64]int
 	hold     time.Duration
 	onEnter  func(running int)
+	onGo     func()
 }
 
 func (r *recorder) add(e string) {
@@ -95,7 +99,28 @@ func newEvaler(r *recorder) *eval.Evaler {
 			r.mu.Unlock()
 		},
 		"work": func(us int) { time.Sleep(time.Duration(us) * time.Microsecond) },
+		// marks the point from which an asynchronous interrupt's delay is counted
+		"go": func() {
+			if r.onGo != nil {
+				r.onGo()
+			}
+		},
 	})
+	// $verif:w<i>: the condition of while loop i of a generated program -- a pure
+	// value expression (no pipeline): true loopK[i] times, then false (and reset)
+	for i := range r.loopK {
+		i := i
+		ns = ns.AddVar("w"+strconv.Itoa(i), vars.FromGet(func() any {
+			r.mu.Lock()
+			defer r.mu.Unlock()
+			if r.loopN[i] >= r.loopK[i] {
+				r.loopN[i] = 0
+				return false
+			}
+			r.loopN[i]++
+			return true
+		}))
+	}
 	ev.ExtendBuiltin(eval.BuildNs().AddNs("verif", ns))
 	return ev
 }
@@ -180,10 +205,11 @@ func traceCoq(evs []string) string {
 }
 
 // runSync evaluates code with a cancellable context; verif:cancel cancels it.
-func runSync(code string, watchdog time.Duration) (evs []string, kind string, elapsed time.Duration, hung bool) {
+func runSync(code string, loops []form, watchdog time.Duration) (evs []string, kind string, elapsed time.Duration, hung bool) {
 	ctx, cancel := context.WithCancel(context.Background())
 	defer cancel()
 	r := &recorder{cancel: cancel, cancelAt: -1}
+	collectLoops(loops, &r.loopK)
 	ev := newEvaler(r)
 	done := make(chan error, 1)
 	t0 := time.Now()
@@ -204,6 +230,17 @@ func runSync(code string, watchdog time.Duration) (evs []string, kind string, el
 }
 
 // ------------------------------------------------------------------ mini-language
+
+func collectLoops(c []form, k *[64]int) {
+	for _, f := range c {
+		if f.Op == "while" && f.ID >= 0 && f.ID < len(k) {
+			k[f.ID] = f.K
+		}
+		collectLoops(f.A, k)
+		collectLoops(f.B, k)
+		collectLoops(f.C, k)
+	}
+}
 
 type form struct {
 	Op      string // tick cancel fail call try each defer
@@ -238,6 +275,8 @@ func (f form) coq() string {
 		return App("FEach", Nat(f.K), chunkCoq(f.A))
 	case "defer":
 		return App("FDefer", chunkCoq(f.A), chunkCoq(f.B))
+	case "while":
+		return App("FWhile", Nat(f.K), chunkCoq(f.A))
 	}
 	panic("bad form")
 }
@@ -271,6 +310,9 @@ func (f form) elv() string {
 		return s
 	case "each":
 		return fmt.Sprintf("each {|_| %s } [(range %d)]", chunkElv(f.A), f.K)
+	case "while":
+		// the condition is a pure value expression; the body may be empty
+		return fmt.Sprintf("while $verif:w%d { %s }", f.ID, chunkElv(f.A))
 	case "defer":
 		rest := chunkElv(f.B)
 		if rest != "" {
@@ -282,9 +324,11 @@ func (f form) elv() string {
 }
 
 type gen struct {
-	c       *reg.Ctx
-	nextID  int
-	cancels int
+	c        *reg.Ctx
+	nextID   int
+	cancels  int
+	nextLoop int
+	noFail   int // > 0 inside a while body: a failing body would leave the loop counter half used
 }
 
 func (g *gen) chunk(depth, maxLen int) []form {
@@ -297,11 +341,27 @@ func (g *gen) chunk(depth, maxLen int) []form {
 }
 
 func (g *gen) form(depth int) form {
-	r := g.c.Rand.Intn(20)
+	r := g.c.Rand.Intn(23)
 	if depth <= 0 && r >= 9 {
 		r = g.c.Rand.Intn(9)
 	}
+	if r == 8 && g.noFail > 0 {
+		r = 0
+	}
+	if r >= 20 && g.nextLoop >= 64 {
+		r = 16
+	}
 	switch {
+	case r >= 20:
+		// while with a pure value condition; the body is often the empty chunk
+		f := form{Op: "while", ID: g.nextLoop, K: g.c.Rand.Intn(4)}
+		g.nextLoop++
+		g.noFail++
+		if g.c.Rand.Intn(3) != 0 {
+			f.A = g.chunk(depth-1, 2)
+		}
+		g.noFail--
+		return f
 	case r < 6:
 		g.nextID++
 		return form{Op: "tick", ID: g.nextID}
@@ -379,7 +439,7 @@ type syncDesc struct {
 
 func emitSync(c *reg.Ctx, prog []form, class string) {
 	code := chunkElv(prog)
-	evs, kind, el, hung := runSync(code, 20*time.Second)
+	evs, kind, el, hung := runSync(code, prog, 20*time.Second)
 	d := syncDesc{Prog: code, Trace: evs, Result: kind, Ms: float64(el.Microseconds()) / 1000}
 	if hung {
 		c.Emit(reg.Case{Direct: "evaluation did not return within 20s", Desc: d, Key: code, Class: class, Nontrivial: true})
@@ -419,7 +479,7 @@ var freeProgs = []struct{ name, code string }{
 }
 
 func emitFree(c *reg.Ctx, name, code string) {
-	evs, kind, el, hung := runSync(code, 8*time.Second)
+	evs, kind, el, hung := runSync(code, nil, 8*time.Second)
 	d := syncDesc{Prog: code, Trace: evs, Result: kind, Ms: float64(el.Microseconds()) / 1000}
 	class := "free-" + name
 	if hung || el > 5*time.Second {
@@ -435,6 +495,8 @@ func emitFree(c *reg.Ctx, name, code string) {
 
 type job struct {
 	ID       int    `json:"id"`
+	Name     string `json:"name"`
+	ArmOnGo  bool   `json:"arm_on_go"` // the delay counts from the program's verif:go, not from Eval's start
 	Kind     string `json:"kind"` // peach | async
 	Code     string `json:"code"`
 	CancelAt int    `json:"cancel_at"`
@@ -496,7 +558,16 @@ func childMain() {
 		done := make(chan error, 1)
 		t0 := time.Now()
 		var timer *time.Timer
-		if j.Kind == "async" {
+		var tmu sync.Mutex
+		if j.Kind == "async" && j.ArmOnGo {
+			r.onGo = func() {
+				tmu.Lock()
+				if timer == nil {
+					timer = time.AfterFunc(time.Duration(j.DelayUs)*time.Microsecond, doCancel)
+				}
+				tmu.Unlock()
+			}
+		} else if j.Kind == "async" {
 			timer = time.AfterFunc(time.Duration(j.DelayUs)*time.Microsecond, doCancel)
 		}
 		go func() {
@@ -518,9 +589,11 @@ func childMain() {
 			res.Hang = true
 			res.Result = "hang"
 		}
+		tmu.Lock()
 		if timer != nil {
 			timer.Stop()
 		}
+		tmu.Unlock()
 		cancel()
 		// every goroutine the evaluation started must be gone
 		if !res.Hang {
@@ -624,6 +697,29 @@ func runJobs(jobs []job) childOut {
 			}
 			return o
 		}
+		hungNames := map[string]bool{}
+		for _, j := range jobs {
+			if r, ok := o.res[j.ID]; ok && r.Hang && j.Name != "" {
+				hungNames[j.Name] = true
+			}
+		}
+		hangs := 0
+		for _, r := range o.res {
+			if r.Hang {
+				hangs++
+			}
+		}
+		if len(hungNames) > 0 {
+			var keep []job
+			for _, j := range rest {
+				// after 6 hung programs the remaining spin programs add nothing
+				// but watchdog periods
+				if !hungNames[j.Name] && !(hangs >= 6 && strings.HasPrefix(j.Name, "spin-")) {
+					keep = append(keep, j)
+				}
+			}
+			rest = keep
+		}
 		jobs = rest
 	}
 	return o
@@ -657,6 +753,37 @@ var asyncProgs = []struct{ name, code string }{
 	{"run-parallel", `run-parallel { sleep 20 } { for x [(range 2000)] { nop } } { verif:work 20000 }`},
 	{"peach-bounded", `peach &num-workers=3 {|x| verif:work 400 } [(range 100)]`},
 	{"peach-bounded-elv", `peach &num-workers=2 {|x| for y [(range 30)] { nop $y } } [(range 60)]`},
+}
+
+// Programs that spin or wait WITHOUT starting a pipeline in their inner loop:
+// the only cancellation point left is the check after the (empty) chunk.  They
+// never end on their own (or run for minutes), so an ignored interrupt shows as
+// "Eval did not return".
+var spinProgs = []struct{ name, code string }{
+	{"while-empty", `while $true { }`},
+	{"while-comments", "while $true {\n  # nothing here\n\n  # still nothing\n}"},
+	{"while-newlines", "while $true {\n\n\n}"},
+	{"while-pure-cond", `var a = [x]; while $a[0] { }`},
+	{"while-not-done", `var done = $false; while (not $done) { }`},
+	{"while-in-fn", `fn spin { while $true { } }; spin`},
+	{"while-in-try", `try { while $true { } } finally { nop }`},
+	{"while-in-lambda", `{ { while $true { } } }`},
+	{"while-try-empty", `while $true { try { } finally { } }`},
+	{"while-empty-fns", `fn g { }; fn f { g }; while $true { f }`},
+	{"while-empty-lambda", `while $true { { } }`},
+	{"recursion-empty", `fn r {|n| if (> $n 0) { r (- $n 1) } else { } }; while $true { r 40 }`},
+	{"for-long-empty", `for x [(range 100000)] { }; while $true { }`},
+	// long value producers consumed by empty-body each / peach.  Finite on purpose:
+	// after an interrupt each and peach DRAIN their remaining input (they only stop
+	// calling the callback), and range / repeat do not look at the context, so the
+	// evaluation returns when the producer is done (~0.5 us per value; observation,
+	// see checks/C19.md) -- with 10^9 values that is minutes, not a missing check.
+	{"each-range-empty", `range 1000000 | each {|x| }; while $true { }`},
+	{"each-repeat-empty", `repeat 1000000 x | each {|x| }; while $true { }`},
+	{"peach-range-empty", `range 300000 | peach &num-workers=8 {|x| }; while $true { }`},
+	{"each-list-empty", `while $true { each {|x| } [(range 1000)] }`},
+	{"nested-while-empty", `while $true { while $false { } }`},
+	{"if-pure-empty", `while $true { if $false { } else { } }`},
 }
 
 type asyncDesc struct {
@@ -693,6 +820,11 @@ func run(c *reg.Ctx) {
 		{{Op: "defer", A: []form{cn}, B: []form{t(1)}}, t(2)},
 		{},
 		{t(1), t(2)},
+		// loops with empty bodies around a cancel
+		{{Op: "while", ID: 0, K: 3, A: nil}, t(1), cn, {Op: "while", ID: 1, K: 2, A: nil}, t(2)},
+		{{Op: "while", ID: 0, K: 3, A: []form{t(1), cn, {Op: "while", ID: 1, K: 2}}}, t(2)},
+		{{Op: "each", K: 3, A: nil}, cn, {Op: "each", K: 2, A: nil}},
+		{{Op: "while", ID: 0, K: 2, A: []form{{Op: "try", A: nil, HasC: true}}}, t(1)},
 	}
 	for _, p := range planted {
 		emitSync(c, p, "sync")
@@ -762,7 +894,27 @@ func run(c *reg.Ctx) {
 			id++
 			a := asyncIn{ap.name, ap.code, delay, []int{1, 2, 4, 8}[c.Rand.Intn(4)]}
 			async[id] = a
-			jobs = append(jobs, job{ID: id, Kind: "async", Code: ap.code, DelayUs: delay, Procs: a.procs})
+			jobs = append(jobs, job{ID: id, Name: a.name, Kind: "async", Code: ap.code, DelayUs: delay, Procs: a.procs})
+		}
+	}
+	// loops and waits without pipelines: swept and random delays, all classes every run
+	nspin := 2
+	if c.Tier == "thorough" {
+		nspin = 12
+	}
+	for _, sp := range spinProgs {
+		for k := 0; k < nspin; k++ {
+			// the delay counts from verif:go, so the interrupt arrives while the
+			// program is inside its loop (not during parsing / compilation)
+			delay := []int{1000, 3000, 300, 10000}[k%4]
+			if k >= 4 || (k == 1 && c.Rand.Intn(2) == 0) {
+				delay = 500 + c.Rand.Intn(12000)
+			}
+			id++
+			code := "verif:go; " + sp.code
+			a := asyncIn{"spin-" + sp.name, code, delay, []int{1, 2, 4, 8}[c.Rand.Intn(4)]}
+			async[id] = a
+			jobs = append(jobs, job{ID: id, Name: a.name, ArmOnGo: true, Kind: "async", Code: code, DelayUs: delay, Procs: a.procs})
 		}
 	}
 	o := runJobs(jobs)
@@ -813,8 +965,8 @@ func run(c *reg.Ctx) {
 		var bad string
 		switch {
 		case r.Hang:
-			bad = "evaluation did not return within 15s of being started (interrupt ignored)"
-		case r.Fired && r.AfterMs > 5000:
+			bad = "Eval did not return within 15s after the interrupt (a cancellation point is missing): " + a.code
+		case r.Fired && r.AfterMs > 10000:
 			bad = fmt.Sprintf("evaluation returned %.0f ms after the interrupt", r.AfterMs)
 		case r.Leak > 0:
 			bad = fmt.Sprintf("%d goroutines still alive 3s after the evaluation returned", r.Leak)
